@@ -1,5 +1,5 @@
 """C14 - CheckSum() reports the symbology's real check value (EAN, Code 128, Code 39), unchanged by scaling.
-model phase : check automata of MC_EAN / MC_Code39 / MC_Code128 (shared with C05-C07); checksum forwarding through Scale in MC_ScaleAlgo's spec
+model phase : check automata of MC_EAN / MC_Code39 / MC_Code128 (shared with C05-C07); single-substitution detection (MC_CheckDetect); checksum forwarding through Scale in MC_ScaleAlgo's spec
 trace valid.: `cs` conjunct of Trace1D on encode events (value recomputed from the symbol values the reader recovered),
               `checksum` conjunct of TraceScale on 1..3 rounds of Scale of each barcode"""
 import vlib, onedim, gen
@@ -11,7 +11,12 @@ def run(tier):
     chk = vlib.Check("C14", tier)
     quick = tier == "quick"
     chk.add_model([dict(module="MC_EAN.tla", cfg="MC_EAN.cfg", workers=4),
-                   dict(module="MC_Code39.tla", cfg="MC_Code39_quick.cfg", workers=4)])
+                   dict(module="MC_Code39.tla", cfg="MC_Code39_quick.cfg", workers=4),
+                   # what the check values are for: every single-symbol substitution changes them (all lengths to 14 / 45)
+                   dict(module="MC_CheckDetect.tla", cfg="MC_CheckDetect_ean.cfg", workers=2),
+                   dict(module="MC_CheckDetect.tla", cfg="MC_CheckDetect_c93c.cfg", workers=2),
+                   dict(module="MC_CheckDetect.tla", cfg="MC_CheckDetect_c93k.cfg", workers=2),
+                   dict(module="MC_CheckDetect.tla", cfg="MC_CheckDetect_reach.cfg", workers=1, expect_violation="HitReachable")])
     drive = vlib.build_harness(chk.work)
     rng = chk.rng
     jobs = []
